@@ -51,3 +51,19 @@ ASSUME_PIPE = [
     "after every step the driver waits until all repository goroutines are blocked (goroutine dump) before draining outputs",
     "TLC exhaustiveness holds for the constants of the cfg files only",
 ]
+
+# Checkpoint_MC: two single-shard collections sharing source pchannel sa and downstream pchannel ta
+CAT_K = [coll("c1", 101, ["sa_101v0"], ["ta_901v0"], 901, parts={"_default": [1011, 9011]}),
+         coll("c2", 102, ["sa_102v0"], ["ta_902v0"], 902, parts={"_default": [1021, 9021]})]
+
+
+def kscripts(shape):
+    """shape: {stream: [True/False,...]} (True = data pack) -> concrete scripts for the ckpt driver"""
+    res = {}
+    for s, packs in shape.items():
+        l = []
+        for k, data in enumerate(packs, 1):
+            l.append({"id": "%s#%d" % (s, k), "b": 10 * k, "e": 10 * k + 5,
+                      "msgs": ([{"k": "ins", "ts": 10 * k + 2, "p": "_default"}] if data else [])})
+        res[s] = l
+    return res
